@@ -76,6 +76,9 @@ def unhx(h):
 
 class Prop:
     theorems = []
+    level_text = ""
+    level_note = ("trusted: Coq kernel; fidelity of the hand-written model = the correspondence check (differential testing, bounded by "
+                  "the generators); extraction (ExtrOcamlBasic only) + OCaml driver; Rust harness; usize modelled as unbounded")
     suite_names = "?"
     rule = ""
     assumptions = []
@@ -280,8 +283,15 @@ def check_sound(case, o, fr_lookup):
 
 class C02(Prop):
     pid = "C02"
-    theorems = [("C02_sound", None)]
+    theorems = [("C02_sound",
+                 "forall (cap : cap_t) (ops : list op) (i : nat) (m : list N), Forall op_ok ops -> "
+                 "nth_error (snd (run_ops cap init ops)) i = Some (EvPush OMsg m) -> "
+                 "exists pre, trailing (firstn (S i) ops) [] = pre ++ frame m")]
     suite_names = "S-DEC/S-FRONT (dec, fdecode, fstream)"
+    level_text = ("Theorem C02_sound (Coq, closed under the global context): for every capacity and every history of push_byte/finalize/"
+                  "reset/from_buf, a reported payload m implies the bytes pushed since the last boundary end with frame m - unbounded in "
+                  "stream length, for any attacker-chosen bytes. Correspondence model<->code on adversarial streams (debug+release) and the "
+                  "same statement evaluated on the real decoder's outputs with the extracted spec.")
     rule = ("adversarial streams from G-STREAM: valid frames, frames with flip/drop/insert/truncate, wrong pad count, pad bytes "
             "counted as data, misaligned end, end shifted by 1-3 0x1b, non-zero padding, missing escape, restart inside, invalid "
             "escape - CRC recomputed for the manipulated framing - plus noise; interleaved finalize/reset/new; quick adds the "
@@ -326,4 +336,9 @@ class C02(Prop):
         return bad
 
 
-REGISTRY = {"C01": C01, "C02": C02, "C07": C07}
+REGISTRY = {"C02": C02}
+
+NOT_CLAIMED = {}
+for _p in ["C01", "C03", "C04", "C05", "C06", "C07", "C08", "C09", "C10", "C11", "C12", "C13", "C14", "C15", "C16", "C17", "C18"]:
+    NOT_CLAIMED[_p] = "check under construction in this revision (model/theorem not yet committed); the technique applies, see DESIGN.md section 5"
+
